@@ -17,6 +17,7 @@ var fsReaders = map[string]bool{"ReadDir": true, "IsExist": true, "IsFile": true
 func init() {
 	register(&PropDef{ID: "C06", Title: "Write-back cache: nothing reaches the remote before Commit, everything after", Rules: rulesC06,
 		Explanation: "Decided (structural necessary conditions, package fscache): R1 the remote filespace (field remoteFS, followed through helpers) is the receiver of a mutating Filespace method, or the destination of StreamCopy / a Copier / fshelper.Copy, only inside Commit (expected count elsewhere: 0; the rule must match the >= 4 uses inside Commit on every run); R2 every journal map that some method writes is ranged over in Commit and its loop applies the matching remote operation to the ranged path; R3 in Commit every error of a remote operation is returned and no loop iteration continues after a failed one; R4 in every mutating Cache method, each path that mutates the buffer also calls the matching journal recorder with the same path, and every return that can be a success has passed the recorder (a mutation is never skipped because a read-through query says it is unnecessary); R5 the four journal maps are accessed only under their own mutex; R6 the stream copy Commit uses for written files tests and returns the errors of io.Copy and of closing the remote writer (a remote failure during Commit is reported). " +
+			"Added in round 2: R6 covers fshelper.Copier.copyFile too (used by Cache.Copy) and requires the destination writer to be opened only after the source reader could be opened; R7 every possibly-nil return of Commit follows the loops over all journals — a 'nothing changed' skip is accepted only if its flag is armed again on every failing exit after it was cleared (else the Commit after a failed one is a successful no-op); R8 the module's own backends replace content at open time (same rules as C04.R1/R2): Commit pushes files with remote.Writer + io.Copy, and io.Copy never calls Write for an empty source. " +
 			"NOT decided — and known to fail on some histories, which this family cannot see (DESIGN.md §6): equality of the committed tree with direct application (directory copies journal only the root and are dropped by the file-only replay, Remove of a remote empty directory is filtered by the file-only test, the four journals are replayed in a fixed order regardless of operation order, recovery by a second Commit).",
 	})
 }
@@ -63,17 +64,16 @@ func mutatingUsesOf(f *ssa.Function, field string) []fsUse {
 	return out
 }
 
-
 // cacheRoles: the fields and helpers of fscache.Cache, discovered from the code
 // (types and how the exported methods use them), not from their names.
 type cacheRoles struct {
 	cacheT   *types.Named
-	histT    *types.Struct   // the journal struct (the struct-typed field of Cache that holds map fields)
-	histName string          // its field name in Cache
-	remote   string          // "fscache.Cache.<field>" of the filespace Commit writes to
-	buffer   string          // "fscache.Cache.<field>" of the filespace Commit copies from
-	journals []string        // names of the journal map fields
-	class    map[string]string // journal field -> operation class: Remove | RemoveAll | MkdirAll | write
+	histT    *types.Struct              // the journal struct (the struct-typed field of Cache that holds map fields)
+	histName string                     // its field name in Cache
+	remote   string                     // "fscache.Cache.<field>" of the filespace Commit writes to
+	buffer   string                     // "fscache.Cache.<field>" of the filespace Commit copies from
+	journals []string                   // names of the journal map fields
+	class    map[string]string          // journal field -> operation class: Remove | RemoveAll | MkdirAll | write
 	recorder map[string][]*ssa.Function // journal field -> functions that write it
 	problems []string
 }
@@ -343,6 +343,9 @@ func rulesC06(c *Ctx) {
 	}
 	c.Floor("R2", n2, 4)
 
+	// ---- R7 a successful Commit has replayed the journals -----------------------------------------
+	ruleCommitReplays(c, commit, roles)
+
 	// ---- R3 Commit reports remote failure --------------------------------------------------------
 	facts := factsFor(commit)
 	n3 := 0
@@ -488,6 +491,15 @@ func rulesC06(c *Ctx) {
 	} else {
 		c.Bad("R6", "fshelper.StreamCopy", 0, "anchor not found")
 	}
+	// Cache.Copy goes through fshelper.Copier: same discipline (in particular: the destination
+	// in the buffer is not created/emptied - and journaled - before the source could be opened)
+	if cf := c.P.Func(helperPkg, "Copier", "copyFile"); cf != nil {
+		ruleStreamCopy(c, "R6", cf)
+	}
+	// ---- R8 the module's own backends replace content at open time: Commit pushes a file with
+	// remote.Writer + io.Copy, and io.Copy never calls Write for an empty source (same rules as C04.R1/R2)
+	ruleMemWriterTruncates(c, "R8")
+	ruleDiskWriterFlags(c, "R8")
 }
 
 // failingEdgeAlwaysReturns: the branch taken when error value ev is non-nil
@@ -538,4 +550,123 @@ func (r *cacheRoles) histNamed(c *Ctx) *types.Named {
 		}
 	}
 	return nil
+}
+
+// ruleCommitReplays (R7): every return of Commit that can be nil follows the
+// range over every journal.  A skip ("nothing changed since the last commit") is
+// accepted only if the flag it tests is armed again on every failing exit of
+// Commit after it was cleared - otherwise the Commit that follows a failed one
+// reports success without bringing the remote up to date.
+func ruleCommitReplays(c *Ctx, commit *ssa.Function, roles *cacheRoles) {
+	facts := factsFor(commit)
+	ei := errResultIndex(commit.Signature)
+	var rngs []*ssa.Range
+	eachInstr(commit, func(_ *ssa.BasicBlock, _ int, in ssa.Instruction) {
+		if r, ok := in.(*ssa.Range); ok {
+			if n, _ := fieldLoadName(r.X); n != "" {
+				for _, jn := range roles.journals {
+					if jn == n && len(roles.recorder[jn]) > 0 {
+						rngs = append(rngs, r)
+					}
+				}
+			}
+		}
+	})
+	if ei < 0 || len(rngs) == 0 {
+		c.Bad("R7", "Commit replays before it reports success", commit.Pos(), "no journal loop found in Commit; cannot certify")
+		return
+	}
+	mayBeNil := func(r *ssa.Return) bool {
+		ev := r.Results[ei]
+		return !facts.HoldsOnAllEdges(r.Block(), func(fs factSet) bool { return knownNilIn(fs, ev, false) })
+	}
+	var bypass []*ssa.Return
+	for _, r := range returnsOf(commit) {
+		if !mayBeNil(r) {
+			continue
+		}
+		for _, rg := range rngs {
+			if !dominates(rg, r) {
+				bypass = append(bypass, r)
+				break
+			}
+		}
+	}
+	if len(bypass) == 0 {
+		c.OK("R7", "Commit replays before it reports success", commit.Pos(), fmt.Sprintf("every possibly-nil return follows the loops over all %d journals", len(rngs)))
+		return
+	}
+	// a skip flag: which field is cleared inside Commit?
+	isAtomic := func(ci *CallInfo, names ...string) bool {
+		if ci == nil || ci.Static == nil || ci.Static.Pkg == nil || ci.Static.Pkg.Pkg.Path() != "sync/atomic" {
+			return false
+		}
+		for _, n := range names {
+			if strings.HasPrefix(ci.Static.Name(), n) {
+				return true
+			}
+		}
+		return false
+	}
+	zeroConst := func(v ssa.Value) (isConst, isZero bool) {
+		if b, ok := constBool(v); ok {
+			return true, !b
+		}
+		if k, ok := constInt(v); ok {
+			return true, k == 0
+		}
+		return false, false
+	}
+	var clear ssa.Instruction
+	flag := ""
+	setsFlag := func(in ssa.Instruction, wantZero bool) string {
+		if st, ok := in.(*ssa.Store); ok {
+			if fa, ok := st.Addr.(*ssa.FieldAddr); ok {
+				if isC, z := zeroConst(st.Val); isC && z == wantZero {
+					return fieldName(fa)
+				}
+			}
+			return ""
+		}
+		ci := callInfo(in, nil, 0)
+		if !isAtomic(ci, "Store", "Swap", "CompareAndSwap") {
+			return ""
+		}
+		fa, ok := ci.Arg(0).(*ssa.FieldAddr)
+		if !ok {
+			return ""
+		}
+		nv := ci.Arg(1)
+		if strings.HasPrefix(ci.Static.Name(), "CompareAndSwap") {
+			nv = ci.Arg(2)
+		}
+		if isC, z := zeroConst(nv); isC && z == wantZero {
+			return fieldName(fa)
+		}
+		return ""
+	}
+	eachInstr(commit, func(_ *ssa.BasicBlock, _ int, in ssa.Instruction) {
+		if f := setsFlag(in, true); f != "" && clear == nil {
+			clear, flag = in, f
+		}
+	})
+	con := "Commit replays before it reports success"
+	if clear == nil {
+		c.Bad("R7", con, bypass[0].Pos(), "Commit can return nil without having ranged over the journals — buffered operations are acknowledged but never reach the remote")
+		return
+	}
+	exits := MustPass(commit, clear, func(in ssa.Instruction) bool { return setsFlag(in, false) == flag })
+	bad := ""
+	for _, e := range exits {
+		r, ok := e.Instr.(*ssa.Return)
+		if !ok || isNilConst(resolve(r.Results[ei])) {
+			continue
+		}
+		if facts.KnownNil(r.Block(), r.Results[ei], true) {
+			continue
+		}
+		bad = c.pos(r.Pos())
+	}
+	c.Check(bad == "", "R7", con, bypass[0].Pos(), "the skip flag "+flag+" is armed again on every failing exit",
+		"Commit skips the replay when "+flag+" is clear, clears it before replaying, and the failing return at "+bad+" does not arm it again — after a remote failure the next Commit returns nil at once and the remote stays half-updated")
 }
